@@ -6,7 +6,7 @@ from contracts.geometry import valid_geometry
 from contracts.schema import clip_evaluation_ok
 from soundevent.evaluation.affinity import compute_affinity
 from soundevent.evaluation.encoding import create_tag_encoder
-from soundevent.evaluation.tasks.sound_event_detection import evaluate_clip, evaluate_sound_event
+from soundevent.evaluation.tasks.sound_event_detection import evaluate_clip, evaluate_sound_event, sound_event_detection
 
 
 def array_sum(y):
@@ -144,3 +144,46 @@ class EvaluateClip:
                 and forall(len(ms), lambda t: match_ok(vocab, ms[t]))
                 and ev.score == mean_or_zero([m.score for m in ms])
                 and len(result[0]) == len(ms) and len(result[1]) == len(ms))
+
+
+# ---- the whole task -----------------------------------------------------------------------------------------
+def clip_ok(vocab, ce):
+    """what EvaluateClip guarantees for one evaluated clip (restated on the ClipEvaluation alone)"""
+    ms = ce.matches
+    return (clip_evaluation_ok(ce.annotations, ce.predictions, ms, ce.score)
+            and forall(len(ms), lambda t: match_ok(vocab, ms[t]))
+            and ce.score == mean_or_zero([m.score for m in ms]))
+
+
+def clip_inputs_ok(vocab, clip_annotations, clip_predictions):
+    return (distinct([a.uuid for a in clip_annotations.sound_events])
+            and distinct([q.uuid for q in clip_predictions.sound_events])
+            and geometries_valid(clip_annotations.sound_events) and geometries_valid(clip_predictions.sound_events)
+            and forall(len(clip_predictions.sound_events), lambda i: encoded_scores_ok(vocab, clip_predictions.sound_events[i].tags)))
+
+
+class SoundEventDetection:
+    target = "soundevent.evaluation.tasks.sound_event_detection:sound_event_detection"
+
+    def requires(clip_predictions, clip_annotations, tags):
+        return (no_duplicates(tags)
+                and forall(len(clip_annotations), lambda j: clip_inputs_ok_a(clip_annotations[j]))
+                and forall(len(clip_predictions), lambda i: clip_inputs_ok_p(tags, clip_predictions[i])))
+
+    def ensures(clip_predictions, clip_annotations, tags, result):
+        ces = result.clip_evaluations
+        # exactly the predicted clips that are also annotated, in order, each with an annotation of the same clip
+        return ([ce.predictions for ce in ces] == [q for q in clip_predictions if annotated(clip_annotations, q)]
+                and forall(len(ces), lambda t: ces[t].annotations.clip.uuid == ces[t].predictions.clip.uuid
+                           and exists(len(clip_annotations), lambda j: clip_annotations[j] == ces[t].annotations)
+                           and clip_ok(tags, ces[t]))
+                and result.score == mean_or_zero([ce.score for ce in ces]))
+
+
+def clip_inputs_ok_a(a):
+    return distinct([x.uuid for x in a.sound_events]) and geometries_valid(a.sound_events)
+
+
+def clip_inputs_ok_p(vocab, q):
+    return (distinct([x.uuid for x in q.sound_events]) and geometries_valid(q.sound_events)
+            and forall(len(q.sound_events), lambda i: encoded_scores_ok(vocab, q.sound_events[i].tags)))
